@@ -402,16 +402,30 @@ class Vals:
                 return i
         return None
 
-    def creator(self):
+    _CREATORS = {}
+
+    @classmethod
+    def creators(cls, f):
+        """closure def -> bodies that create it (in a view with helpers folded in: the callers the helper went into)."""
+        ent = cls._CREATORS.get(id(f))
+        if ent is None or ent[0] is not f:
+            m = {}
+            for n in list(f.bodies.keys() if hasattr(f.bodies, "keys") else f.bodies):
+                b = f.bodies[n]
+                for bi, l, cdef, st in b.closures_created():
+                    m.setdefault(cdef, []).append(b)
+            ent = (f, m)
+            cls._CREATORS[id(f)] = ent
+        return ent[1]
+
+    def creator(self, prefer=None):
         """(resolver of the body that creates this closure, the closure term there)."""
-        root = self.body.rec.get("root")
-        if not root or "{closure" not in self.body.name:
+        if "{closure" not in self.body.name:
             return None, None
-        parent_name = self.body.name.rsplit("::", 1)[0]
-        for pn in (parent_name, root):
-            pb = self.f.body(pn)
-            if pb is None:
-                continue
+        cands = Vals.creators(self.f).get(self.body.name, [])
+        if prefer is not None:
+            cands = [b for b in cands if b is prefer] or cands
+        for pb in cands:
             for bi, l, cdef, st in pb.closures_created():
                 if cdef == self.body.name:
                     pv = Vals.of(self.f, pb)
@@ -850,11 +864,11 @@ _TWO_ELEMS = {"sort_by", "sort_unstable_by", "max_by", "min_by", "is_sorted_by",
 _ACC_ELEM = {"fold", "try_fold", "rfold", "try_rfold", "scan"}
 
 
-def closure_binding(f, cb):
+def closure_binding(f, cb, prefer=None):
     """(resolver of the creating body, substitution) that reads closure body `cb` where it is created: captures are the
     captured values; the parameter is what the receiving std combinator passes (its documented contract)."""
     cv = Vals.of(f, cb)
-    pv, ct = cv.creator()
+    pv, ct = cv.creator(prefer)
     if pv is None:
         return None, None
     pb = pv.body
@@ -891,18 +905,44 @@ def closure_binding(f, cb):
     return pv, m
 
 
-def lift(f, body, t):
-    """A term of `body` (a closure nested anywhere below a function) in the vocabulary of that function."""
+def lift(f, body, t, parents=None):
+    """A term of `body` (a closure nested anywhere below a function) in the vocabulary of that function.
+    parents: {closure def: creating body} where the caller knows it."""
     cur = body
     for _ in range(6):
         if "{closure" not in cur.name:
             break
-        pv, m = closure_binding(f, cur)
+        pv, m = closure_binding(f, cur, (parents or {}).get(cur.name))
         if pv is None:
             break
         t = strip_deep(_subst(_seal(t), m or {}))
         cur = pv.body
     return cur, t
+
+
+def family_bodies(f, root):
+    """The function and every closure created (transitively) in it — also closures of helpers folded into it."""
+    rb = f.body(root)
+    out, parents = [], {}
+    work = [rb] if rb is not None else []
+    seen = set()
+    while work:
+        b = work.pop(0)
+        if b.name in seen:
+            continue
+        seen.add(b.name)
+        out.append(b)
+        for bi, l, cdef, st in b.closures_created():
+            cb = f.body(cdef)
+            if cb is not None and cdef not in seen:
+                parents.setdefault(cdef, b)
+                work.append(cb)
+    for n in sorted(f.children(root)):
+        cb = f.body(n)
+        if cb is not None and n not in seen:
+            seen.add(n)
+            out.append(cb)
+    return out, parents
 
 
 def bool_leaves(t):
@@ -925,11 +965,10 @@ def family_tests(f, root):
     """[(owner body, where, atom)] — every comparison the function `root` or one of its closures branches on or returns;
     a three-way comparison that is matched on reads ('cmp', 'cmp', a, b)."""
     out = []
-    names = [root] + sorted(n for n in f.children(root) if n != root)
     rb = f.body(root)
-    for n in names:
-        b = f.body(n)
-        if b is None or is_derived(b):
+    bodies, parents = family_bodies(f, root)
+    for b in bodies:
+        if is_derived(b):
             continue
         s = K.sym_of(b)
         terms = []
@@ -952,7 +991,7 @@ def family_tests(f, root):
             if is_bool and t["t"] == "call" and t["dest"]["l"] == 0 and not t["dest"]["p"]:
                 terms.append((bi, strip_deep(s.call(t, bi))))
         for bi, t in terms:
-            owner, lt = (b, t) if b is rb else lift(f, b, t)
+            owner, lt = (b, t) if b is rb else lift(f, b, t, parents)
             if owner is not rb:
                 owner, lt = b, t                # could not be read at the function's level: judged where it stands
             if lt[0] == "call" and _info(lt).get("name") in ("cmp", "partial_cmp") and len(lt[2]) == 2 and \
@@ -1025,11 +1064,9 @@ def check_adjacency_implies_overlap(ctx, f):
                     ordering.append((where, _bound_owner(owner, lo, "L"), _bound_owner(owner, hi, "U")))
         if not adjacency:
             continue
-        names = [root] + list(f.children(root))
         asked = []          # argument pairs of Block::intersects calls
-        for n in names:
-            nb = f.body(n)
-            for c in (nb.calls() if nb is not None else ()):
+        for nb in family_bodies(f, root)[0]:
+            for c in nb.calls():
                 if not nb.is_cleanup(c.bb) and c.name == "intersects" and (c.trait or "").endswith("chain::Block"):
                     asked.append({K.alpha(render(x), nb) for x in K.arg_terms(c)[:2]})
         nadj += 1
@@ -1249,19 +1286,47 @@ def check_resource_set(ctx, f):
             ctx.missing("R-FLOW", "ResourceSet::" + meth, RS + meth)
             continue
         ctx.saw_fn(b.name)
-        sites = [x for x in aggregates_of(f, "repository::resources::set::ResourceSet") if x[0] is b]
+        RSADT = "repository::resources::set::ResourceSet"
+        built = []          # {field: term} for each way the result is put together here: a literal or the constructor
+        for bd, bi, si, st in aggregates_of(f, RSADT):
+            if bd is b and not b.is_cleanup(bi):
+                built.append({k: strip_deep(v) for k, v in K.sym_of(bd).rvalue(st["rv"])[3]})
+        nb = f.body(RS + "new")
+        slots = None
+        if nb is not None:
+            for bd, bi, si, st in aggregates_of(f, RSADT):
+                if bd is nb:
+                    slots = {k: render(strip_deep(v)) for k, v in K.sym_of(nb).rvalue(st["rv"])[3]}
+        for c in b.calls():
+            if c.res == RS + "new" and not b.is_cleanup(c.bb) and slots:
+                at = K.arg_terms(c)
+                params = {nb.local_name(i + 1): at[i] for i in range(min(nb.arg_count, len(at)))}
+                if all(v in params for v in slots.values()):
+                    built.append({k: params[v] for k, v in slots.items()})
         ok = False
         detail = None
-        for bd, bi, si, st in sites:
-            t = K.sym_of(bd).rvalue(st["rv"])
-            flds = {k: render(strip_deep(v)) for k, v in t[3]}
-            detail = flds
+
+        def fam_of(t, who):
+            """`who.asn` / `who.asn()` -> 'asn'"""
+            r = render(strip_deep(t))
+            m2 = re.match(r"^(?:ResourceSet::(\w+)\((\w+)\)|(\w+)\.(\w+))$", r)
+            if not m2:
+                return None
+            fam, base = (m2.group(1), m2.group(2)) if m2.group(1) else (m2.group(4), m2.group(3))
+            return fam if base == who else None
+        for flds in built:
+            detail = {k: render(v) for k, v in flds.items()}
             ok = True
             for fld, (op, a1, a2) in spec.items():
-                r = flds.get(fld, "")
-                m = re.match(r"^(?:\w+::)?(\w+)\((.+), (.+)\)$", r)
-                if not (m and m.group(1) == op and {m.group(2), m.group(3)} == {a1, a2}):
+                t = flds.get(fld)
+                if t is None or t[0] != "call" or _info(t).get("name") != op or len(t[2]) != 2:
                     ok = False
+                    continue
+                x, y = t[2]
+                if not ((fam_of(x, "self") == fld and fam_of(y, "other") == fld) or (fam_of(x, "other") == fld and fam_of(y, "self") == fld)):
+                    ok = False
+            if not ok:
+                break
         ctx.ob("R-FLOW", "ResourceSet::%s:like-fields" % meth, ok,
                "ResourceSet::%s combines asn with asn, ipv4 with ipv4, ipv6 with ipv6" % meth, where=b.loc, detail=detail)
     b = f.body(RS + "contains")
